@@ -741,10 +741,10 @@ def run(ctx):
         add(model_run(ctx, "ModLoad_quick.cfg", "n<=3", True),
             "enum n<=3, calls in name order, paired hook profiles for the good cases")
         add(model_run(ctx, "ModLoad_antiq.cfg", "n<=3-antidepends", True),
-            "enum n<=3 with edges declared by module_antidepends() too (consistent declarations), all entry points")
+            "enum n<=3 with edges declared by module_antidepends() too, all entry points")
     else:
         add(model_run(ctx, "ModLoad_anti.cfg", "n<=3-antidepends", True, workers=12),
-            "enum n<=3 with edges declared by module_antidepends() too (consistent declarations), paired hook profiles")
+            "enum n<=3 with edges declared by module_antidepends() too, paired hook profiles")
         add(model_run(ctx, "ModLoad_orders.cfg", "n<=3-all-call-orders", True, workers=12),
             "enum n<=3, every call order; for the good cases every post-init/destructor profile, every set of "
             "declaration-free modules without constructor")
@@ -944,9 +944,8 @@ def run(ctx):
                            "module_constructor / module_post_init / module_destructor present or absent) and copied "
                            "per module name m1..m6; only a module that declares nothing may lack module_constructor "
                            "(a constructor is the only place to call module_depends() from); edges are declared "
-                           "with module_depends() or, from the other end, module_antidepends() (consistent declarations "
-                           "only: a consumer pulled in by its back-end does not name that back-end with module_depends() "
-                           "as well); module_is_backend is outside the contract")
+                           "with module_depends() or, from the other end, module_antidepends(); module_is_backend is outside "
+                           "the contract")
     ctx.assumptions.append("'running' = a zero-delay libevent timer, armed by the first stub that gets control (a "
                            "module_constructor, or the ELF constructor of a stub without one), fired inside "
                            "main()'s event loop (or the process was still alive %ss after start); the daemon is "
